@@ -3,7 +3,11 @@
 Stage B (correspondence with the Lean model Ptn.C13): `gaussian_elimination` on the same matrix; the
 triple (Op_l, reduced, Op_r) is compared EXACTLY (shape, numerator/denominator, symbol names).  Unit
 correspondences of `_row_add`, `_col_add` and `are_parallel_row` exercise the compatibility guard and the
-parallelism test directly.
+parallelism test directly.  Every `gaussian_elimination` case is ALSO sent to the CHECKED model (`C13 gaussc`,
+lean/Ptn/C13/Checked.lean: every list access is explicit and answers `index-error` out of range, exceptions abort
+the run): outcome (triple | zerodiv | index-error) compared exactly, IndexError <-> `index-error`.  Ragged
+(non-rectangular) and empty matrices - outside the property's domain - are sent to the checked model only: both
+sides must raise / report IndexError on the same inputs and return the same (possibly ragged) triple otherwise.
 Stage C (oracle, independent of the library): Op_l * reduced * Op_r is multiplied out as linear
 polynomials over `fractions.Fraction` (dict symbol -> coefficient per entry) and compared with the input
 entry by entry; shapes compatible; reduced not larger than the input; entry format (no mixing).
@@ -20,7 +24,9 @@ RULE = ("cases: ALL matrices with <= 4 entries (quick: 1xk, kx1, 2x2) / <= 6 ent
         "matrices up to 8x8 (numeric low-rank blocks, sparse symbolic, mixed) with planted zero rows/columns, "
         "parallel rows/columns, sums of rows and repeated symbols; direct calls of _row_add/_col_add/"
         "are_parallel_row; a few out-of-domain inputs (coefficient-0 symbols, symbol '') for correspondence "
-        "only.  non-trivial = distinct input on which the elimination did something (result differs from "
+        "only; ALL ragged / empty matrices with <= 3 rows of length <= 3 and <= 4 entries (thorough: <= 5) over the "
+        "same alphabet plus random ragged matrices (rows of a random matrix cut or extended), correspondence with "
+        "the checked model only (IndexError <-> index-error).  non-trivial = distinct input on which the elimination did something (result differs from "
         "(1, M, 1)) or, for the unit calls, distinct input")
 PARTIAL = [
     "in-place mutation / aliasing of the argument is not modelled (functional model); the oracle compares with a "
@@ -28,8 +34,6 @@ PARTIAL = [
     "polynomial identity is stated in Lean as equality under every rational valuation of the symbols "
     "(equivalent for linear forms over an infinite field; K = Rat to stay in core Lean); the oracle compares "
     "coefficients",
-    "index accesses of the model are totalised with defaults (gM); that they are never out of range is "
-    "guaranteed by the loop bounds and checked by correspondence (Python would raise IndexError), not proved",
 ]
 ASSUMPTIONS = [
     "input domain: rectangular, >= 1 row; numbers are fractions.Fraction (zero is Fraction(0), "
@@ -116,6 +120,46 @@ def canon_result(m, n, L, A, R, tab) -> str:
     as_ = " ".join(entry_str(e, tab) for row in A for e in row)
     rs = " ".join(rat_str(x) for row in R for x in row)
     return f"ok {m} {p} {q} {n} | {ls} | {as_} | {rs}"
+
+
+def gaussc_line(mat, tab) -> str:
+    """Request for the checked model; rows may differ in length, the matrix may be empty."""
+    return ("C13 gaussc " + " ".join([str(len(mat))] + [str(len(r)) for r in mat]
+                                     + [entry_str(e, tab) for row in mat for e in row]))
+
+
+def _rows_str(X, f) -> str:
+    return " ".join([str(len(X))] + ["[" + " ".join([str(len(r))] + [f(x) for x in r]) + "]" for r in X])
+
+
+def canon_result_c(L, A, R, tab) -> str:
+    """Same canonical line as the Lean driver prints for the checked model (ragged matrices allowed)."""
+    return (f"ok | {_rows_str(L, rat_str)} | {_rows_str(A, lambda e: entry_str(e, tab))} | "
+            f"{_rows_str(R, rat_str)}")
+
+
+def impl_outcome_c(M0, tab):
+    """(outcome line of the implementation in the checked model's format, exception or None, result or None)."""
+    from pytreenet.ttno import symbolic_gaussian_elimination_fraction as sge
+    try:
+        L, A, R = sge.gaussian_elimination(deepcopy(M0))
+    except IndexError as e:
+        return "index-error", e, None
+    except ZeroDivisionError as e:
+        return "zerodiv", e, None
+    except Exception as e:          # noqa: BLE001
+        return f"exception {type(e).__name__}", e, None
+    try:
+        return canon_result_c(L, A, R, tab), None, (L, A, R)
+    except Exception as e:          # noqa: BLE001
+        return f"uncanonical {type(e).__name__}: {e}", None, (L, A, R)
+
+
+def build_ragged(case):
+    lens, ent = case["lens"], case["ent"]
+    assert len(ent) == sum(lens)
+    it = iter(ent)
+    return [[parse_token(next(it)) for _ in range(k)] for k in lens]
 
 
 # ------------------------------------------------------------------ oracle
@@ -404,27 +448,83 @@ HAND = [
 ]
 
 
+RAGGED_HAND = [
+    # witnesses of Props.lean (replayed on the real code here)
+    {"kind": "ragged", "lens": [2, 1], "ent": ["1", "2", "a"]},          # ragged_index_error_witness
+    {"kind": "ragged", "lens": [], "ent": []},                            # empty_matrix_index_error
+    {"kind": "ragged", "lens": [2, 1], "ent": ["a", "1", "b"]},          # ragged_index_error_in_elimination
+    {"kind": "ragged", "lens": [1, 2], "ent": ["1", "a", "2"]},          # ragged_without_error_witness
+    {"kind": "ragged", "lens": [2, 1], "ent": ["0a", "1", "a"]},
+    {"kind": "ragged", "lens": [1, 3, 2], "ent": ["a", "b", "1", "0", "2", "b"]},
+]
+
+
+def ragged_shapes(ctx):
+    """All row-length vectors with <= 3 rows of length <= 3 that are NOT a rectangle with >= 1 row."""
+    cap = 4 if (ctx.tier == "quick" and ctx.scale == 1) else 5
+    out = []
+    for nrows in range(0, 4):
+        for lens in itertools.product(range(0, 4), repeat=nrows):
+            if sum(lens) <= cap and (nrows == 0 or len(set(lens)) > 1):
+                out.append(list(lens))
+    return out
+
+
+def random_ragged(rng):
+    base = random_matrix(rng)
+    r, c, ent = base["rows"], base["cols"], base["ent"]
+    rows = [ent[i * c:(i + 1) * c] for i in range(r)]
+    pool = [t for t in ent if t != "0"] or ["1"]
+    for _ in range(rng.choice([1, 1, 2, 3])):
+        i = rng.randrange(r)
+        if rng.random() < 0.6 and rows[i]:
+            del rows[i][rng.randrange(len(rows[i])):]          # cut the row
+        else:
+            rows[i] = rows[i] + [rng.choice(pool + ["0"]) for _ in range(rng.randint(1, 2))]
+    return {"kind": "ragged", "lens": [len(x) for x in rows], "ent": [t for x in rows for t in x],
+            "mode": "ragged-random"}
+
+
 def gen_cases(ctx):
     rng = ctx.rng
     cases = []
     cases += [dict(c) for c in HAND]
     cases += [dict(c) for c in EXTRA_DOMAIN]
+    cases += [dict(c) for c in RAGGED_HAND]
+    for lens in ragged_shapes(ctx):
+        for ent in itertools.product(ALPHABET, repeat=sum(lens)):
+            cases.append({"kind": "ragged", "lens": lens, "ent": list(ent), "mode": "ragged-exh"})
     for (r, c) in exhaustive_shapes(ctx):
         for ent in itertools.product(ALPHABET, repeat=r * c):
             cases.append({"kind": "gauss", "rows": r, "cols": c, "ent": list(ent), "mode": "exh"})
     for _ in range(ctx.n(6000, 100000)):
         cases.append(random_matrix(rng))
     cases += unit_cases(ctx, ctx.subrng("unit") if ctx.scale == 1 else rng, ctx.n(1500, 20000))
+    rrng = ctx.subrng("ragged") if ctx.scale == 1 else rng
+    for _ in range(ctx.n(2000, 40000)):
+        cases.append(random_ragged(rrng))
     return cases
 
 
 # ------------------------------------------------------------------ protocol lines
+
+def model_lines(case):
+    """Requests of a case: `gauss` cases ask the totalised AND the checked model."""
+    if case["kind"] == "gauss":
+        mat = build_matrix(case)
+        tab = symbol_table(mat)
+        return [gauss_line(mat, tab), gaussc_line(mat, tab)]
+    return [model_line(case)]
+
 
 def model_line(case):
     kind = case["kind"]
     if kind == "gauss":
         mat = build_matrix(case)
         return gauss_line(mat, symbol_table(mat))
+    if kind == "ragged":
+        mat = build_ragged(case)
+        return gaussc_line(mat, symbol_table(mat))
     if kind == "par":
         a = [parse_token(t) for t in case["a"]]
         b = [parse_token(t) for t in case["b"]]
@@ -454,21 +554,29 @@ def run(ctx):
         if ctx.time_left() < 0:
             break
         chunk = cases[start:start + CH]
-        outs = ctx.lean.batch([model_line(c) for c in chunk])
-        for c, o in zip(chunk, outs):
-            run_case(ctx, c, o)
+        lines, span = [], []
+        for c in chunk:
+            ls = model_lines(c)
+            span.append((len(lines), len(ls)))
+            lines += ls
+        outs = ctx.lean.batch(lines)
+        for c, (a, k) in zip(chunk, span):
+            run_case(ctx, c, outs[a:a + k])
 
 
 def run_case(ctx, case, model_out=None):
+    """`model_out`: the list of answers to `model_lines(case)` (asked here if absent)."""
     if model_out is None:
-        model_out = ctx.lean.batch([model_line(case)])[0]
+        model_out = ctx.lean.batch(model_lines(case))
     kind = case["kind"]
     if kind == "gauss":
-        _case_gauss(ctx, case, model_out)
+        _case_gauss(ctx, case, model_out[0], model_out[1])
+    elif kind == "ragged":
+        _case_ragged(ctx, case, model_out[0])
     elif kind == "par":
-        _case_par(ctx, case, model_out)
+        _case_par(ctx, case, model_out[0])
     else:
-        _case_add(ctx, case, model_out)
+        _case_add(ctx, case, model_out[0])
 
 
 class _Probe:
@@ -511,7 +619,23 @@ class _Probe:
         self.sge.row_add, self.sge.col_add = self.saved
 
 
-def _case_gauss(ctx, case, model_out):
+def _case_ragged(ctx, case, checked_out):
+    """Non-rectangular or empty input (outside the domain): correspondence with the checked model only."""
+    M0 = build_ragged(case)
+    tab = symbol_table(M0)
+    impl, exc, _ = impl_outcome_c(M0, tab)
+    key = ("r", tuple(case["lens"]), tuple(case["ent"]))
+    ctx.count(key, nontrivial=True, corr=True)
+    ctx.tally("ragged", impl.split(" ")[0] if not impl.startswith("exception") else impl[:40])
+    ctx.tally("source", case.get("mode", "ragged-hand") + "/out-of-domain")
+    if impl == "index-error":
+        ctx.sample({k: case[k] for k in ("kind", "lens", "ent")}, 2)
+    if impl != checked_out:
+        ctx.corr_fail(case, f"gaussian_elimination on ragged rows {case['lens']} {case['ent']}: "
+                            f"impl={impl[:400]} checked model={checked_out[:400]}")
+
+
+def _case_gauss(ctx, case, model_out, checked_out=None):
     from pytreenet.ttno import symbolic_gaussian_elimination_fraction as sge
     gaussian_elimination = sge.gaussian_elimination
     M0 = build_matrix(case)
@@ -549,6 +673,20 @@ def _case_gauss(ctx, case, model_out):
         ctx.sample({k: case[k] for k in ("kind", "rows", "cols", "ent")}, 4)
     if impl != model_out:
         ctx.corr_fail(case, f"gaussian_elimination on {m}x{n} {case['ent']}: impl={impl[:400]} model={model_out[:400]}")
+    if checked_out is not None:
+        # the checked model (explicit IndexError): same outcome as the code, in its own (ragged-capable) format
+        if exc is not None:
+            implc = ("index-error" if isinstance(exc, IndexError) else
+                     "zerodiv" if isinstance(exc, ZeroDivisionError) else f"exception {type(exc).__name__}")
+        else:
+            try:
+                implc = canon_result_c(L, A, R, tab)
+            except Exception as e:  # noqa: BLE001
+                implc = f"uncanonical {type(e).__name__}: {e}"
+        ctx.tally("checked", implc.split(" ")[0])
+        if implc != checked_out:
+            ctx.corr_fail(case, f"gaussian_elimination on {m}x{n} {case['ent']}: impl={implc[:400]} "
+                                f"checked model={checked_out[:400]}")
     if not dom:
         return                      # outside the stated input domain: correspondence only
     if exc is not None:
@@ -632,7 +770,29 @@ def _case_add(ctx, case, model_out):
 
 # ------------------------------------------------------------------ shrinking
 
+def _shrink_ragged(case):
+    lens, ent = case["lens"], case["ent"]
+    base = {k: v for k, v in case.items() if k not in ("lens", "ent")}
+    rows, pos = [], 0
+    for k in lens:
+        rows.append(ent[pos:pos + k])
+        pos += k
+    for i in range(len(rows)):
+        rest = rows[:i] + rows[i + 1:]
+        yield dict(base, lens=[len(x) for x in rest], ent=[t for x in rest for t in x])
+    for i in range(len(rows)):
+        if rows[i]:
+            cut = rows[:i] + [rows[i][:-1]] + rows[i + 1:]
+            yield dict(base, lens=[len(x) for x in cut], ent=[t for x in cut for t in x])
+    for k, tok in enumerate(ent):
+        if tok != "0":
+            yield dict(base, lens=lens, ent=ent[:k] + ["0"] + ent[k + 1:])
+
+
 def shrink(case):
+    if case["kind"] == "ragged":
+        yield from _shrink_ragged(case)
+        return
     if case["kind"] != "gauss":
         return
     r, c, ent = case["rows"], case["cols"], case["ent"]
